@@ -9,8 +9,8 @@
 //!   (P line).
 //! * `c18reg`  — `ProcessRegistry` driven directly.
 //! * `c18gs` / `c18ge` — `GenServerProcess` / `GenEventManager` `handle_message` on generated `$gen_call`/`$gen_cast`/… terms.
-//! * known findings replayed on every run: a link / monitor accepted by a process that has already collected its
-//!   links / monitors is never honoured (`kf-c18-late-link`, `kf-c18-late-monitor`).
+//! * the former known findings (a link / monitor accepted by a process that has already collected its links / monitors) are
+//!   directed scenarios now: the repaired code answers them with a `noproc` notice, exactly once.
 use crate::canon::{pid_text, term_text};
 use crate::peer::FakeEpmd;
 use crate::rng::Rng;
@@ -104,16 +104,22 @@ fn msg_text(tr: &Trace, msg: &Message) -> (String, Option<bool>) {
                 (format!("r?{}", term_text(body)), Some(false))
             }
         }
+        // reason `error`: e<p> / m<p>.<r>; reason `noproc` (a link / monitor that came late): E<p> / M<p>.<r>
         Message::Exit { from, reason } => {
-            let ok = matches!(reason, OwnedTerm::Atom(a) if a.as_str() == "error");
-            (format!("e{}{}", slot_of(tr, from), if ok { String::new() } else { format!("!{}", term_text(reason)) }), None)
+            let (tag, odd) = match reason {
+                OwnedTerm::Atom(a) if a.as_str() == "error" => ("e", String::new()),
+                OwnedTerm::Atom(a) if a.as_str() == "noproc" => ("E", String::new()),
+                other => ("e", format!("!{}", term_text(other))),
+            };
+            (format!("{}{}{}", tag, slot_of(tr, from), odd), None)
         }
         Message::MonitorExit { monitored, reference, reason } => {
-            let ok = matches!(reason, OwnedTerm::Atom(a) if a.as_str() == "error");
-            (
-                format!("m{}.{}{}", slot_of(tr, monitored), ref_of(tr, reference), if ok { String::new() } else { format!("!{}", term_text(reason)) }),
-                Some(false),
-            )
+            let (tag, odd) = match reason {
+                OwnedTerm::Atom(a) if a.as_str() == "error" => ("m", String::new()),
+                OwnedTerm::Atom(a) if a.as_str() == "noproc" => ("M", String::new()),
+                other => ("m", format!("!{}", term_text(other))),
+            };
+            (format!("{}{}.{}{}", tag, slot_of(tr, monitored), ref_of(tr, reference), odd), Some(false))
         }
         other => (format!("?{:?}", other).replace(' ', ""), Some(false)),
     }
@@ -787,10 +793,51 @@ fn directed() -> Vec<(&'static str, Scenario)> {
             vec![Step::Yield(2), Step::Op(OpSpec::Register(0, s(2))), Step::Yield(1), Step::Op(OpSpec::Register(0, s(2))), Step::Yield(3), Step::Op(OpSpec::Register(0, s(2))),
                  Step::Op(OpSpec::Whereis(0)), Step::WaitPoint(0, 4), Step::Op(OpSpec::Register(0, s(2))), Step::Op(OpSpec::Whereis(0))],
         ], hook_max: [0, 0, 0], hook_fixed: Some([2, 2, 2]), hook_seed: 1, names: 1 }),
+        // a link that reaches the closed set from the terminating process's side; repeated, and unlink + link again: one notice
+        ("late-link-from-side-and-repeated", fixed(vec![vec![
+            sp(true), sp(true), sp(true),
+            Step::Op(OpSpec::Link(s(2), s(1))),
+            Step::Op(OpSpec::Send(s(1), true)),
+            Step::WaitPoint(1, 2),
+            Step::Op(OpSpec::Link(s(1), s(0))),
+            Step::Op(OpSpec::Link(s(0), s(1))),
+            Step::Op(OpSpec::Unlink(s(0), s(1))),
+            Step::Op(OpSpec::Link(s(0), s(1))),
+            Step::Op(OpSpec::Link(s(2), s(1))),
+            Step::Op(OpSpec::Unlink(s(2), s(1))),
+            Step::Op(OpSpec::Link(s(1), s(1))),
+            Step::Op(OpSpec::Link(PidSel::Ghost(0), s(1))),
+        ]], [0, 30, 0])),
+        // late links and monitors in the last window (both sets closed), two monitors = two references = two notices;
+        // a demonitor that comes too late changes nothing; a non-trapping late linker dies of the noproc signal
+        ("late-in-last-window", fixed(vec![vec![
+            sp(true), sp(true), sp(false), sp(true),
+            Step::Op(OpSpec::Monitor(s(3), s(1))),
+            Step::Op(OpSpec::Monitor(s(0), s(2))),
+            Step::Op(OpSpec::Send(s(1), true)),
+            Step::WaitPoint(1, 3),
+            Step::Op(OpSpec::Monitor(s(0), s(1))),
+            Step::Op(OpSpec::Monitor(s(0), s(1))),
+            Step::Op(OpSpec::Demonitor(s(3), s(1), RefSel::Idx(0))),
+            Step::Op(OpSpec::Demonitor(s(0), s(1), RefSel::Idx(2))),
+            Step::Op(OpSpec::Link(s(2), s(1))),
+            Step::Op(OpSpec::Monitor(PidSel::Ghost(1), s(1))),
+            Step::Op(OpSpec::Monitor(s(1), s(1))),
+        ]], [0, 0, 40])),
+        // monitor between the two closes: the link set is closed, the monitor set is still open (ordinary notice)
+        ("monitor-between-closes", fixed(vec![vec![
+            sp(true), sp(true),
+            Step::Op(OpSpec::Send(s(1), true)),
+            Step::WaitPoint(1, 2),
+            Step::Op(OpSpec::Monitor(s(0), s(1))),
+            Step::Op(OpSpec::Link(s(0), s(1))),
+            Step::WaitPoint(1, 3),
+            Step::Op(OpSpec::Monitor(s(0), s(1))),
+        ]], [0, 25, 25])),
     ]
 }
 
-/// the known findings: a link / monitor accepted after the process collected its links / monitors
+/// the former known findings (repaired): a link / monitor accepted after the process collected its links / monitors
 fn late_link() -> Scenario {
     Scenario { clients: vec![vec![
         sp(true), sp(true),
@@ -1166,24 +1213,24 @@ pub fn run(ctx: &mut Ctx) {
             }
         }
 
-        // known findings, replayed against the real code on every run
-        for (class, sc, what) in [("kf-c18-late-link", late_link(), "late-link"), ("kf-c18-late-monitor", late_monitor(), "late-monitor")] {
+        // the former known findings: the interleaving is forced, the linked / monitoring process must see the noproc notice
+        for (sc, what, want) in [(late_link(), "late-link", "E1"), (late_monitor(), "late-monitor", "M1.0")] {
             match run_scenario(&sc).await {
                 Some((log, _)) => {
                     emit(ctx, &log, what);
-                    let log = canonical_handled(&log);
-                    let st: Vec<String> = log.iter().filter_map(spec_token).collect();
-                    // the interleaving must really have been forced, otherwise the witness shows nothing
                     let pos = |f: &dyn Fn(&Entry) -> bool| log.iter().position(|e| f(e));
                     let call = pos(&|e| matches!(e, Entry::Call { op, .. } if op.starts_with("lk.") || op.starts_with("mo.")));
-                    let k = if class == "kf-c18-late-link" { 2 } else { 3 };
+                    let k = if what == "late-link" { 2 } else { 3 };
                     let after = pos(&|e| matches!(e, Entry::X { p: 1, k: kk } if *kk == k));
                     let gone = pos(&|e| matches!(e, Entry::D { p: 1 }));
-                    if matches!((after, call, gone), (Some(a), Some(c), Some(g)) if a < c && c < g) {
-                        ctx.prop(class, &format!("c18specfull {}", st.join(" ")), "ok");
-                    } else {
+                    if !matches!((after, call, gone), (Some(a), Some(c), Some(g)) if a < c && c < g) {
                         ctx.fail("c18-witness-interleaving-not-forced", what);
                     }
+                    let seen = log.iter().filter(|e| matches!(e, Entry::H { p: 0, msg } if msg == want)).count();
+                    if seen != 1 {
+                        ctx.fail("c18-late-entry-not-answered-once", &format!("{}: process 0 saw {} {} times", what, want, seen));
+                    }
+                    ctx.count("former_findings_replayed");
                 }
                 None => ctx.fail("c18-node-start-failed", what),
             }
